@@ -73,6 +73,8 @@ def _nth(t, i):
     t = z3.simplify(t)
     if z3.is_app(t) and t.decl().kind() == z3.Z3_OP_SEQ_EXTRACT:
         return _nth(t.arg(0), t.arg(1) + i)
+    if z3.is_app(t) and t.decl().kind() == z3.Z3_OP_ITE:
+        return z3.If(t.arg(0), _nth(t.arg(1), i), _nth(t.arg(2), i))
     return t[i]
 
 
@@ -83,6 +85,10 @@ def _len(t):
         a, off, n = t.arg(0), t.arg(1), t.arg(2)
         la = _len(a)
         return z3.If(z3.And(off >= 0, off <= la, n >= 0), z3.If(n < la - off, n, la - off), z3.IntVal(0))
+    if z3.is_app(t) and t.decl().kind() == z3.Z3_OP_ITE:
+        return z3.If(t.arg(0), _len(t.arg(1)), _len(t.arg(2)))
+    if z3.is_app(t) and t.decl().kind() == z3.Z3_OP_SEQ_EMPTY:
+        return z3.IntVal(0)
     return z3.Length(t)
 
 
@@ -92,3 +98,107 @@ def declare_comp(relpath, qualname, ordinal, elem):
         if rp == relpath:
             raise SpecError(f"comprehension contract for {relpath} declared after the module was imported")
     COMP_SPECS[(relpath, qualname, ordinal)] = elem
+
+
+# ---------------------------------------------------------------------------- filter comprehensions
+FILTER_SPECS = set()     # (relpath, qualname, ordinal) of `[x for x in seq if cond(x)]` declared as a filter
+
+
+def declare_filter(relpath, qualname, ordinal):
+    from . import loader
+    for mod, rp in loader.LOADED.items():
+        if rp == relpath:
+            raise SpecError(f"filter contract for {relpath} declared after the module was imported")
+    FILTER_SPECS.add((relpath, qualname, ordinal))
+
+
+def _freeze_closure(f):
+    """a copy of `f` whose closure cells hold the values the enclosing locals have NOW (the facts
+    built from it are instantiated lazily, possibly after the enclosing function reassigned a local)"""
+    import types as _pt
+    if not f.__closure__:
+        return f
+    cells = tuple(_pt.CellType(c.cell_contents) for c in f.__closure__)
+    return _pt.FunctionType(f.__code__, f.__globals__, f.__name__, f.__defaults__, cells)
+
+
+def _map_values_list(mi):
+    """the values of an ordered symbolic dict in key order as a free-standing sequence: a fresh `vals`
+    with len(vals) == len(keys) and vals[j] == val[keys[j]] for every j; a dict of concrete size is
+    left to native iteration"""
+    ks = mi.ks
+    if z3.is_int_value(z3.simplify(ks._len())):
+        return mi
+    from .spec import forall, implies
+    from .sym import mk_bool
+    c = _ctx.cur()
+    d = mi.d
+    kt = ks.term
+    vty = d._ty.val
+    vals = c.fresh("mapvals", z3.SeqSort(vty.sort()))
+    c.assume(z3.Length(vals) == z3.Length(kt))
+    valarr = d._ty.dt.val(d.term)
+    c.assume_value(forall(T.Int, lambda j: implies(mk_bool(z3.And(0 <= j.t, j.t < z3.Length(kt))),
+                                                   mk_bool(vals[j.t] == z3.Select(valarr, kt[j.t]))), "mv"))
+    return SymList(Box(vals), vty)
+
+
+def filtercomp(key, pred, it):
+    """`[x for x in it if pred(x)]` over a sequence of symbolic length: a fresh sequence `out` that is
+    the order-preserving sub-sequence of the elements satisfying `pred`, axiomatised with two index
+    maps (idx: position in out -> position in it, strictly increasing; pos: its inverse on the
+    satisfying positions).  `pred` is evaluated on generic elements; it must not fork or have effects.
+    On concrete lengths / outside a symbolic run the comprehension runs natively."""
+    if _ctx.active() and type(it).__name__ == "_MapIter" and it.mode == "v" and it.d._ty.ordered:
+        it = _map_values_list(it)       # `d.values()` of an ordered symbolic dict (additive: was native iteration)
+    if not _ctx.active() or not isinstance(it, SymList):
+        return [x for x in it if pred(x)]
+    if z3.is_int_value(z3.simplify(it._len())):
+        return [x for x in it if pred(x)]
+    from .spec import forall, implies
+    from .sym import mk_bool, to_z3_bool
+    c = _ctx.cur()
+    pred = _freeze_closure(pred)
+    ety = it._elem
+    src = it.term                       # the iterated sequence as it is now
+    n = _len(src)
+    out = c.fresh("filt", z3.SeqSort(ety.sort()))
+    tagname = str(c.fresh("filt_f", z3.IntSort()))
+    idx = z3.Function(tagname + "_idx", z3.IntSort(), z3.IntSort())
+    pos = z3.Function(tagname + "_pos", z3.IntSort(), z3.IntSort())
+    m = z3.Length(out)
+    c.assume(z3.And(m >= 0, m <= n))
+
+    def holds(term):
+        before = len(c.decisions)
+        v = pred(ety.wrap(term))
+        if len(c.decisions) != before:
+            raise OutOfReach(f"filter {tuple(key)}: the condition forks on a generic element")
+        return to_z3_bool(v)
+
+    def derived(t, f):
+        """while a fact is instantiated on ground term t, the image f(t) becomes an instantiation term too
+        (one level: never on a term that already is an image under idx/pos)"""
+        if getattr(c, "inst_depth", 0) > 0 and not (z3.is_app(t) and t.decl().name() in (idx.name(), pos.name())):
+            c.note_term(f(t))
+
+    def kept(jv):
+        j = jv.t
+        i = idx(j)
+        derived(j, idx)
+        return implies(mk_bool(z3.And(0 <= j, j < m)), mk_bool(z3.And(
+            0 <= i, i < n, out[j] == _nth(src, i), holds(out[j]), pos(i) == j)))
+
+    def ordered(j1):
+        return forall(T.Int, lambda j2: implies(
+            mk_bool(z3.And(0 <= j1.t, j1.t < j2.t, j2.t < m)), mk_bool(idx(j1.t) < idx(j2.t))), "fj2")
+
+    def complete(iv):
+        i = iv.t
+        j = pos(i)
+        derived(i, pos)
+        return implies(mk_bool(z3.And(0 <= i, i < n, holds(_nth(src, i)))), mk_bool(z3.And(
+            0 <= j, j < m, out[j] == _nth(src, i), idx(j) == i)))
+    for body, nm in ((kept, "fj"), (ordered, "fj1"), (complete, "fi")):
+        c.assume_value(forall(T.Int, body, nm))
+    return SymList(Box(out), ety)
